@@ -313,7 +313,50 @@ fn ty_for(r: &mut Rng, v: u128) -> SeekTy {
     *r.pick(&fits)
 }
 
+/// A sequential run across a counter boundary: one seek to a few blocks below a multiple of
+/// 2^32 blocks (block-aligned half of the time), then several applies of assorted lengths with
+/// no seek in between, so that every buffered / wide / tail path is continued across the boundary.
+fn gen_run_ops(r: &mut Rng, layout: Layout, maxops: usize) -> Vec<Op> {
+    let e38 = 1u128 << 38;
+    let boundary: u128 = if layout == Layout::Ietf {
+        e38
+    } else {
+        match r.below(4) {
+            0 => e38,
+            1 => e38 * (2 + r.below(1 << 20) as u128),
+            2 => 1u128 << 64,
+            _ => e38 * (1 + r.below(7) as u128),
+        }
+    };
+    let back = 64 * r.below(9) as u128 + if r.below(2) == 0 { 0 } else { r.below(64) as u128 };
+    let start = boundary - back.min(boundary);
+    let mut ops = vec![Op::Seek { ty: if start > u64::MAX as u128 { SeekTy::U128 } else { SeekTy::U64 }, v: start.min(u64::MAX as u128), neg: false }];
+    let n = 2 + r.below(5.min(maxops as u64 - 1)) as usize;
+    let mut pos = start.min(u64::MAX as u128);
+    for _ in 0..n {
+        let len = match r.below(8) {
+            0 => 64 * r.range(1, 8) as usize,
+            1 => 129 + r.below(64) as usize,
+            2 => 193 + r.below(63) as usize,
+            3 => 256 * r.range(1, 3) as usize + r.below(256) as usize,
+            4 => 1 + r.below(63) as usize,
+            _ => r.below(700) as usize,
+        };
+        // the 32-bit counter cannot go past its end: stop exactly there
+        let len = if layout == Layout::Ietf && pos + len as u128 > e38 { (e38 - pos) as usize } else { len };
+        ops.push(Op::Apply { n: len });
+        pos += len as u128;
+        if r.below(4) == 0 {
+            ops.push(Op::Pos { ty: SeekTy::U128 });
+        }
+    }
+    ops
+}
+
 fn gen_ops(r: &mut Rng, layout: Layout, c11: bool, maxops: usize) -> Vec<Op> {
+    if r.below(5) == 0 {
+        return gen_run_ops(r, layout, maxops);
+    }
     let limit: u128 = if layout == Layout::Ietf { 1 << 38 } else { 1 << 70 };
     let nops = 1 + r.below(maxops as u64) as usize;
     let mut ops = Vec::with_capacity(nops);
